@@ -257,6 +257,8 @@ class Trimesh(Geometry3D):
         if self.is_empty:
             return self
 
+        # only a cache that describes the current data can be partly kept
+        self._cache.verify()
         # avoid clearing the cache during operations
         with self._cache:
             # if we're cleaning remove duplicate
@@ -2424,6 +2426,8 @@ class Trimesh(Geometry3D):
         Removes all face references so that every face contains
         three unique vertex indices and no faces are adjacent.
         """
+        # only a cache that describes the current data can be partly kept
+        self._cache.verify()
         # new faces are incrementing so every vertex is unique
         faces = np.arange(len(self.faces) * 3, dtype=int64).reshape((-1, 3))
 
@@ -2459,6 +2463,9 @@ class Trimesh(Geometry3D):
         # np.allclose is surprisingly slow so do this test
         elif util.allclose(matrix, _IDENTITY4, 1e-8):
             return self
+
+        # only a cache that describes the current data can be partly kept
+        self._cache.verify()
 
         # new vertex positions
         new_vertices = transformations.transform_points(self.vertices, matrix=matrix)
@@ -2741,6 +2748,8 @@ class Trimesh(Geometry3D):
         Alters `self.faces` by reversing columns, and negating
         `self.face_normals` and `self.vertex_normals`.
         """
+        # only a cache that describes the current data can be partly kept
+        self._cache.verify()
         with self._cache:
             # get the normals before touching the faces
             face_normals = self._cache.cache.get("face_normals")
@@ -3134,6 +3143,8 @@ class Trimesh(Geometry3D):
         copied._cache.verify()
 
         if include_cache:
+            # drop our own cached items if they are for outdated data
+            self._cache.verify()
             # shallow copy cached items into the new cache
             # since the data didn't change here when the
             # data in the new mesh is changed these items
